@@ -9,6 +9,7 @@
 
 import collections
 import itertools as it
+import math
 import operator
 import re
 import threading
@@ -956,10 +957,12 @@ def uniqueify(seq):
 
 def is_number(value):
     try:
-        float(value)
-        return True
+        number = float(value)
     except (ValueError, TypeError):
         return False
+    # 'inf', 'nan', '1e999' and '1_000' are numbers to python only
+    return math.isfinite(number) and not (
+        isinstance(value, str) and '_' in value)
 
 
 def coerce_to_number(value, convert_all=False):
@@ -978,6 +981,9 @@ def coerce_to_number(value, convert_all=False):
     # True and False strings become numbers
     if convert_all and value.upper() in ('TRUE', 'FALSE', EMPTY):
         return int(len(value) == 4)
+
+    if not is_number(value):
+        return value
 
     try:
         if '.' not in value:
